@@ -905,7 +905,8 @@ func (w *c19World) ingestOne() {
 	pre := tp.Prob("reg_prescanned", 1, 4)
 	w.dialLive.Store(int32(tp.Choose("reg_phantom_live", 2)))
 	tt := pb.TransportType_Min
-	lv := uint32(core.CurrentClientLibraryVersion())
+	// library generations of the clients vary (the statistics are kept per version)
+	lv := []uint32{uint32(core.CurrentClientLibraryVersion()), uint32(core.CurrentClientLibraryVersion()), 0, 1, 2, 3, gen}[tp.Choose("reg_libver", 7)]
 	c2s := &pb.ClientToStation{DecoyListGeneration: &gen, CovertAddress: &covert, Transport: &tt, V4Support: &v4, V6Support: &v6,
 		ClientLibVersion: &lv, Flags: &pb.RegistrationFlags{Prescanned: &pre}}
 	msg, err := proto.Marshal(&pb.C2SWrapper{SharedSecret: c19Secret(secret), RegistrationPayload: c2s, RegistrationSource: &src,
@@ -1324,6 +1325,14 @@ func c19Scenario(r *sim.Run) {
 	s := hook.Install(r.Tape)
 	defer s.Uninstall()
 	finished := false
+	// a panic in one of the station's own goroutines (ingest workers do the statistics accounting
+	// of a registration) takes the station down
+	s.OnTaskPanic = func(task string, v any) {
+		if task == "director" {
+			panic(v)
+		}
+		r.Fail("C19/panic/station-goroutine", "a goroutine of the station (%s) panicked: %v", strings.SplitN(task, "/", 2)[0], v)
+	}
 	s.Spawn("director", func() {
 		c19Body(r)
 		finished = true
